@@ -149,6 +149,9 @@ Section IPALC.
       match OrdMap.lookup N.compare l cm with
       | None => Err EMissingPolynomial
       | Some c =>
+        (* the shifted part is present exactly when the commitment is labelled with a degree bound (assert_eq!) *)
+        if negb (Bool.eqb (match snd c with Some _ => true | None => false end)
+                          (match ic_shifted (fst c) with Some _ => true | None => false end)) then Panic else
         do b <- bound_policy num coeff (snd c) bound;
         ilc_verifier_loop cm lc_label num t ev b (gvadd cc (gvscale coeff (ic_comm (fst c)))) (comb_opt_g cs (ic_shifted (fst c)) coeff)
       end
